@@ -1,9 +1,10 @@
 ------------------------------ MODULE MCRej64 ------------------------------
 (* Prints the Zipf<f64> / Zeta<f64> anchors of Rej64Table as cases for the harness *)
-EXTENDS Rej64Table, Sequences, Integers, TLC, Json
+EXTENDS Rej64Table, Sequences, Integers, TLC, Json, IOUtils
+TT == IF "TIER" \in DOMAIN IOEnv /\ IOEnv.TIER = "thorough" THEN JTabT ELSE JTab
 VARIABLE c
 Init == c = 0
-Next == /\ c < Len(JTab) /\ c' = c + 1
-        /\ PrintT(<<"CASE", ToJson([kernel |-> "rej64", id |-> JTab[c'].id, fam |-> JTab[c'].fam, params |-> JTab[c'].params, ws |-> [i \in 1..Len(JTab[c'].us) |-> JTab[c'].us[i].w]])>>)
+Next == /\ c < Len(TT) /\ c' = c + 1
+        /\ PrintT(<<"CASE", ToJson([kernel |-> "rej64", id |-> TT[c'].id, fam |-> TT[c'].fam, params |-> TT[c'].params, ws |-> [i \in 1..Len(TT[c'].us) |-> TT[c'].us[i].w]])>>)
 Spec == Init /\ [][Next]_c
 =============================================================================
